@@ -162,6 +162,28 @@ def g_conv(repo):
     return g
 
 
+def g_ceq(repo):
+    """C13: compare_eq including lists and maps at any depth, against the deep-equality spec deq (transparent IndexMap model)"""
+    g = GroupBuild('ceq', repo)
+    g.raw('prelude_common.rs')
+    PV = RULES + 'path_value.rs'
+    g.type(RULES + 'errors.rs', 'Error', derive=None, opaque_payloads='ExtError')
+    g.type(RULES + 'values.rs', 'RangeType', derive=None)
+    g.type(PV, 'Location', derive='Clone, Copy')
+    g.type(PV, 'Path', derive=None)
+    g.type(PV, 'MapValue', derive=None, extra_subst=[('indexmap::IndexMap<String, PathAwareValue>', 'IndexMapM')])
+    g.type(PV, 'PathAwareValue', derive=None)
+    import os
+    from vrun import VERUS_DIR
+    pc = open(os.path.join(VERUS_DIR, 'prelude_cmp.rs')).read().replace('#[verifier::external_body]\npub struct IndexMapSV { _p: u8 }\n', '')
+    g.text(pc, 'prelude_cmp.rs (without the opaque IndexMapSV: this group models the map transparently, prelude_ceq.rs)')
+    g.raw('prelude_ceq.rs')
+    g.fn(None, PV, 'type_info', impl=r'impl PathAwareValue', stub=True, wrap_impl='impl PathAwareValue')
+    g.fn(None, PV, 'compare_values', spec='compare_values.spec', stub=True)
+    g.fn('U-ceq', PV, 'compare_eq', spec='compare_eq.spec', props=['C01', 'C08', 'C13'], assumed_as=['compare_eq_stub.spec'])
+    return g
+
+
 def g_eval_blocks(repo):
     """query blocks and type blocks: need the assumed ValueScope model (R12)"""
     g = GroupBuild('eval_blocks', repo)
@@ -505,4 +527,4 @@ def g_tables(repo):
     return g
 
 
-GROUPS = {'conv': g_conv, 'expect': g_expect, 'opmatch': g_opmatch, 'cnf': g_cnf, 'failed': g_failed, 'structured': g_structured, 'validate_data': g_validate_data, 'memo': g_memo, 'memo_block': g_memo_block, 'compare': g_compare, 'tables': g_tables, 'index2': g_index2, 'index': g_index, 'tracker': g_tracker, 'validate': g_validate, 'eval_blocks': g_eval_blocks, 'report': g_report, 'merge': g_merge, 'status': g_status, 'exit': g_exit, 'eval': g_eval, 'eval_disp': g_eval_disp}
+GROUPS = {'ceq': g_ceq, 'conv': g_conv, 'expect': g_expect, 'opmatch': g_opmatch, 'cnf': g_cnf, 'failed': g_failed, 'structured': g_structured, 'validate_data': g_validate_data, 'memo': g_memo, 'memo_block': g_memo_block, 'compare': g_compare, 'tables': g_tables, 'index2': g_index2, 'index': g_index, 'tracker': g_tracker, 'validate': g_validate, 'eval_blocks': g_eval_blocks, 'report': g_report, 'merge': g_merge, 'status': g_status, 'exit': g_exit, 'eval': g_eval, 'eval_disp': g_eval_disp}
